@@ -330,7 +330,7 @@ func cmdCheck() int {
 	}
 	if len(hs) == 0 {
 		fmt.Fprintln(os.Stderr, "no harnesses selected")
-		return 2
+		return 3
 	}
 	// overlay needs all harness files of the involved packages (they may share helpers)
 	dirs := map[string]bool{}
